@@ -574,6 +574,29 @@ class OptRow(SV):
             raise PyRaise("TypeError")
         return it.getitem(v, key)
 
+    def sv_compare(self, it, op, other, reflected):
+        # tuple equality: a generated row (_DerivedEntry, a tuple subclass) equals a plain tuple
+        # with the same fields; None equals only None
+        if op not in ("==", "!="):
+            return NotImplemented
+        if other is None:
+            e = z3.Not(RowSort.present(self.row))
+        elif isinstance(other, OptRow):
+            raise Unsupported("comparison of two table reads")
+        elif isinstance(other, tuple):
+            if len(other) != 5:
+                e = z3.BoolVal(False)
+            else:
+                mine = row_tuple(self.row)
+                e = RowSort.present(self.row)
+                for x, y in zip(mine, other):
+                    c = it.compare("==", x, y, identity_first=True)
+                    e = z3.And(e, to_z3(c) if not isinstance(c, bool) else z3.BoolVal(c))
+        else:
+            raise Unsupported("comparison of a table row with %r" % (other,))
+        e = z3.simplify(e)
+        return e if op == "==" else z3.Not(e)
+
 
 class SCache(SV):
     """registry._unit_object_cache: str -> Unit; modelled as key set + uninterpreted payload.
@@ -826,7 +849,14 @@ class UnytDomain:
         if op == "**" and is_num(a) and isinstance(b, SExpr):
             # python float ** sympy expression: a sympy expression again (a Number when the
             # exponent is a Number; possibly complex or non-finite)
-            return SExpr.fresh(it, "powered")
+            r = SExpr.fresh(it, "powered")
+            # assumed sympy fact: positive float ** real finite Number is the Number base**p
+            it.assume(z3.Implies(
+                z3.And(e_kind(b.term) == K_NUM, to_z3(b.sv_getattr(it, "is_real")),
+                       to_z3(b.sv_getattr(it, "is_finite")), to_real(a) > 0),
+                z3.And(e_kind(r.term) == K_NUM, e_numval(r.term) == rpow(to_real(a), e_numval(b.term)),
+                       e_numval(r.term) > 0)))
+            return r
         return MISSING
 
     def str_getitem(self, it, s, k):
@@ -845,7 +875,16 @@ class UnytDomain:
             n = z3.Length(zs)
             lo = 0 if lo is None else lo
             if is_z3(lo) or is_z3(hi):
-                raise Unsupported("symbolic slice bounds")
+                # symbolic bounds: Python's clamping of (possibly negative) indices, as terms
+                def clamp(b, default):
+                    if b is None:
+                        return default
+                    t = to_z3(b) if not isinstance(b, int) else z3.IntVal(b)
+                    t = z3.If(t < 0, z3.If(n + t < 0, z3.IntVal(0), n + t), z3.If(t > n, n, t))
+                    return t
+                lo_t, hi_t = clamp(lo, z3.IntVal(0)), clamp(hi, n)
+                ln = z3.If(hi_t - lo_t < 0, z3.IntVal(0), hi_t - lo_t)
+                return z3.SubString(zs, lo_t, ln)
             if lo < 0:
                 lo_t = z3.If(n + lo < 0, z3.IntVal(0), n + lo)
             else:
